@@ -381,7 +381,13 @@ Section Input.
     match nth (N.to_nat fn) preds PUnknownP with
     | PFlag f v => (Bool.eqb (getf (cfg s) f) v, s)
     | PConstP b err => (b, if err then add_err s else s)
-    | PCustomP => (match cmatch (off (cur s)) with Some len => 0 <? len | None => false end, s)
+    | PCustomP =>
+      (* PrepareCustomDice: true when a registered parser matches here; inside a syntactic predicate (skip mode) the
+         actions — ConsumeCustomDice included — do not run, so the helper itself advances over the matched text *)
+      match cmatch (off (cur s)) with
+      | Some len => if 0 <? len then (true, if skip s then custom_consume s else s) else (false, s)
+      | None => (false, s)
+      end
     | PUnknownP => (false, put_data s (run_effs 2 (0, 0) (0, 0) 0 [AUnknown] (get_data s)))
     end.
 
